@@ -455,6 +455,9 @@ func (e *env) diffNode(want map[string]interface{}) ([]string, map[string]interf
 	return diff, got
 }
 
+// digestGuarded is digest under its own frame name (the wedge watchdog looks for the goroutine parked inside it).
+func (e *env) digestGuarded() string { return e.digest() }
+
 func (e *env) digest() string {
 	b, _ := json.Marshal(mbt.Canon(e.s.SpecState(e.T)))
 	return e.cs.VerifDigest() + "\nspec " + string(b)
